@@ -202,6 +202,7 @@ struct Run<'a> {
     nctl: u64,
 }
 
+#[derive(Clone)]
 struct Cfg {
     n: usize,
     tick: u64,
@@ -810,6 +811,12 @@ struct ReplayOut {
 }
 
 fn replay_one(beh: &[Value], cfg: &Cfg, full: bool) -> ReplayOut {
+    // behaviours with TCP probes: one prepared stream per probe and ordered pair
+    let nprobe = beh.iter().filter(|a| a["a"] == "send" && a["kind"] == "probe").count();
+    let mut cfg2 = cfg.clone();
+    cfg2.tcp_k = nprobe;
+    let cfg = &cfg2;
+    let tcp = nprobe > 0;
     let mut run = Run::new(cfg);
     let mut mirror = CfgMirror { gmin: cfg.gmin, gmax: cfg.gmax, lover: BTreeMap::new() };
     let mut divergence = None;
@@ -841,7 +848,9 @@ fn replay_one(beh: &[Value], cfg: &Cfg, full: bool) -> ReplayOut {
                     p[1].as_u64().unwrap() as usize,
                     a["k"].as_u64().unwrap() as usize,
                 );
-                if got != Some(want) && divergence.is_none() {
+                // (with probes the ids are renumbered in send order afterwards: the following
+                // receipts / links comparisons judge the manual delivery)
+                if (if tcp { got.is_none() } else { got != Some(want) }) && divergence.is_none() {
                     divergence = Some(json!({"at":i,"what":"manual","want":want,"got":got}));
                 }
                 i += 1;
@@ -886,7 +895,7 @@ fn replay_one(beh: &[Value], cfg: &Cfg, full: bool) -> ReplayOut {
                                 dst: b["dst"].as_u64().unwrap() as usize,
                                 off: b["off"].as_u64().unwrap(),
                                 id: b["id"].as_u64().unwrap(),
-                                probe: false,
+                                probe: b["kind"] == "probe",
                             });
                             pred_outcomes.push((b["id"].as_u64().unwrap(), b["outcome"].as_str().unwrap().to_string()));
                         }
@@ -898,6 +907,8 @@ fn replay_one(beh: &[Value], cfg: &Cfg, full: bool) -> ReplayOut {
                                 b: b["y"].as_u64().unwrap() as usize,
                             })
                         }
+                        // the answer to a refused probe is made by the code itself
+                        "reply" => {}
                         other => panic!("unexpected in-step action {other}"),
                     }
                     j += 1;
@@ -913,18 +924,57 @@ fn replay_one(beh: &[Value], cfg: &Cfg, full: bool) -> ReplayOut {
                     }
                 }
                 all_raw.extend(raw);
-                let links = run.links_event();
+                let mut links = run.links_event();
                 all_raw.extend(rec::take());
+                if tcp {
+                    // ids in send order (answers included): re-derive the observation so far from the whole stream
+                    let mut fresh = CfgMirror { gmin: cfg.gmin, gmax: cfg.gmax, lover: BTreeMap::new() };
+                    let evs = postprocess(all_raw.clone(), &run, &mut fresh);
+                    recv_log = vec![Vec::new(); cfg.n + 1];
+                    let mut st = 0u64;
+                    for e in &evs {
+                        match e["ev"].as_str().unwrap_or("") {
+                            "step" => st += 1,
+                            "recv" => {
+                                let h = e["h"].as_u64().unwrap() as usize;
+                                recv_log[h].push((e["id"].as_u64().unwrap(), e["at"].as_u64().unwrap(), st));
+                                has_recv = true;
+                            }
+                            "links" => {
+                                links = e["pairs"]
+                                    .as_array()
+                                    .unwrap()
+                                    .iter()
+                                    .map(|p| {
+                                        (
+                                            p["a"].as_u64().unwrap() as usize,
+                                            p["b"].as_u64().unwrap() as usize,
+                                            p["ids"].as_array().unwrap().iter().map(|v| v.as_u64().unwrap()).collect(),
+                                        )
+                                    })
+                                    .collect();
+                            }
+                            _ => {}
+                        }
+                    }
+                    // the order in which a stream reset and datagrams arrive within one turn is not observable
+                    for l in recv_log.iter_mut() {
+                        l.sort_by_key(|r| (r.2, r.0));
+                    }
+                }
                 // compare with the prediction carried by step_end
                 let se = &beh[j];
                 let pr = se["rcvd"].as_array().unwrap();
                 for h in 1..=cfg.n {
-                    let want: Vec<(u64, u64, u64)> = pr[h - 1]
+                    let mut want: Vec<(u64, u64, u64)> = pr[h - 1]
                         .as_array()
                         .unwrap()
                         .iter()
                         .map(|r| (r["id"].as_u64().unwrap(), r["at"].as_u64().unwrap(), r["step"].as_u64().unwrap()))
                         .collect();
+                    if tcp {
+                        want.sort_by_key(|r| (r.2, r.0));
+                    }
                     if want != recv_log[h] && divergence.is_none() {
                         divergence = Some(json!({"at":j,"what":"rcvd","h":h,"step":model_step,
                             "want":format!("{want:?}"),"got":format!("{:?}", recv_log[h])}));
